@@ -150,6 +150,39 @@ theorem c20_dp_limit_partial (mTotal l : K) (groups : List (K × Nat × K)) (nLa
   · exact le_rfl
   · exact not_lt.mp h
 
+theorem foldl_min_le_init (ls : List K) (l : K) : ls.foldl min l ≤ l := by
+  induction ls generalizing l with
+  | nil => exact le_rfl
+  | cons a t ih => exact le_trans (ih (min l a)) (min_le_left l a)
+
+theorem foldl_min_le_mem (ls : List K) (l : K) : ∀ x ∈ ls, ls.foldl min l ≤ x := by
+  induction ls generalizing l with
+  | nil => intro x hx; cases hx
+  | cons a t ih =>
+    intro x hx
+    rcases List.mem_cons.mp hx with rfl | hx
+    · exact le_trans (foldl_min_le_init t (min l x)) (min_le_right l x)
+    · exact ih (min l a) x hx
+
+/-- **Pressure-drop limit, member by member.**  After the clamp of a group, no member - whatever its assembly type -
+is above its own flow limit, and all members still receive the same flow. -/
+theorem c20_clamp_members (m : K) (lims : List K) : ∀ x ∈ lims, clampGroup m lims ≤ x := by
+  intro x hx
+  cases lims with
+  | nil => cases hx
+  | cons l ls =>
+    simp only [clampGroup]
+    split_ifs with h
+    · rcases List.mem_cons.mp hx with rfl | hx
+      · exact foldl_min_le_init ls x
+      · exact foldl_min_le_mem ls l x hx
+    · simp only [List.any_eq_true, decide_eq_true_eq, not_exists, not_and, not_lt] at h
+      exact h x hx
+
+/-- clamping to the first member's limit is wrong as soon as another member has a smaller limit -/
+theorem c20_clamp_first_counter : ¬ (∀ x ∈ [(3 : ℚ), 2], clampGroupFirst (5 : ℚ) [3, 2] ≤ x) := by
+  simp [clampGroupFirst]; norm_num
+
 /-- counter-example for the full claim: the remainder given to the last group can exceed the limit -/
 theorem c20_last_group_can_exceed :
     (distributeStep (10 : ℚ) (some 2) [((3 : ℚ), 1, (1 : ℚ))] 1).2 = 8 := by
